@@ -809,8 +809,8 @@ func outlineColor(tokens []Token, _ string) pr.CssProperty {
 		token := tokens[0]
 		if getKeyword(token) == "invert" {
 			return pr.Color{Type: pa.ColorCurrentColor}
-		} else {
-			return pr.Color(pa.ParseColor(token))
+		} else if c := pa.ParseColor(token); !c.IsNone() {
+			return pr.Color(c)
 		}
 	}
 	return nil
